@@ -3,11 +3,14 @@
    OCaml's); no Extract Constant / Extract Inductive of our own: N, positive, nat, byte stay
    inductive. *)
 From Coq Require Import ExtrOcamlBasic.
-Require Import RV.Model.Bytes RV.Gen.Tables RV.Model.Tag RV.Model.Message RV.Spec.RefCodec RV.Model.Sha512 RV.Model.Merkle RV.Spec.RefMerkle.
+Require Import RV.Model.Bytes RV.Gen.Tables RV.Model.Tag RV.Model.Message RV.Spec.RefCodec RV.Model.Sha512 RV.Model.Merkle RV.Spec.RefMerkle RV.Model.Request RV.Model.Keys RV.Model.Server RV.Spec.RefVerify.
 Extraction Language OCaml.
 Extraction "Extract/model.ml"
   all_tags tag_wire tag_rank tag_nested tag_display
   from_bytes add_field get_field encode encode_framed encoded_size calculate_padding_length to_string
   ref_decode canon
   sha512 node_len tree_new batches root_from_paths chunks
-  s_root s_path s_recompute.
+  s_root s_path s_recompute
+  classify srep_value make_srep make_cert make_dele ltk_srv_value calc_srv_value
+  server_new process_events grease
+  wellformed verify_response.
